@@ -261,7 +261,16 @@ pub trait Api {
         ensures (r is Ok) == spec_valid_addr(human@), r is Ok ==> r.unwrap().s@ == human@;
     fn addr_canonicalize(&self, human: &str) -> (r: StdResult<CanonicalAddr>)
         ensures r == spec_canon_addr(human@);
+    fn addr_humanize(&self, canonical: &CanonicalAddr) -> (r: StdResult<Addr>)
+        ensures r == spec_humanize_addr(*canonical);
 }
+pub uninterp spec fn spec_humanize_addr(c: CanonicalAddr) -> StdResult<Addr>;
+// cosmwasm_std::instantiate2_address: a fixed function of (checksum, creator, salt)   ASSUMED (cosmwasm-std addresses.rs)
+pub uninterp spec fn spec_instantiate2(checksum: Seq<u8>, creator: CanonicalAddr, salt: Seq<u8>) -> StdResult<CanonicalAddr>;
+#[verifier::external_body]
+pub fn instantiate2_address(checksum: &[u8], creator: &CanonicalAddr, salt: &[u8]) -> (r: StdResult<CanonicalAddr>)
+    ensures r == spec_instantiate2(checksum@, *creator, salt@)
+{ unimplemented!() }
 
 // ---- queriers: a querier is characterised by the snapshot of chain state (and block) it answers from
 pub trait Querier {
